@@ -126,6 +126,12 @@ def _force_listing(q, r):
     ref = to_qref(r)["program"] if "program" not in r else r["program"]
     reorder(q.ports, lambda p: p.name, [p["name"] for p in ref.get("ports", [])])
     reorder(q.resources, lambda x: x.name, [x["name"] for x in ref.get("resources", [])])
+    # parameter links: entry by entry in the listed order (two entries with one source need not be neighbours)
+    try:
+        reorder(q.linked_params, lambda l: (str(l.source), tuple(sorted(str(t) for t in l.targets))),
+                [(l["source"], tuple(sorted(l["targets"]))) for l in ref.get("linked_params", [])])
+    except Exception:
+        pass
     conn_key = lambda c: (f"{c.source}", f"{c.target}") if not isinstance(c, str) else c   # noqa: E731
     want = []
     for c in ref.get("connections", []):
@@ -206,7 +212,7 @@ def impl_hier_rename(case):
     out = {}
     for tag, r in (("a", case["routine"]), ("b", rename_at(case["routine"], case["path"], case["pi"]))):
         try:
-            out[tag] = dict(impl_hier_compile({"routine": r}), ok=True)
+            out[tag] = dict(impl_hier_compile({"routine": r, "derived_leaf": case.get("derived_leaf")}), ok=True)
         except BaseException as e:  # noqa: BLE001
             if type(e).__name__ == "CaseTimeout":
                 raise
